@@ -10,5 +10,6 @@ INVARIANT RebinIsGroup
 INVARIANT SpansRespectRows
 INVARIANT OutputIsBlockAggregate
 INVARIANT PredecessorsDivide
+INVARIANT BasesAreCopiedNotRederived
 INVARIANT RefusalIsNonDerivability
 CHECK_DEADLOCK FALSE
